@@ -69,6 +69,7 @@ func c18s2NewFamilies() []*csStores {
 		s.item.AddEntitySymbol(boltz.NewBoolFuncSymbol(s.item, c18s2SymOdd, c18s2Odd))
 		s.item.AddEntitySymbol(boltz.NewStringFuncSymbol(s.item, c18s2SymLabel, c18s2Label))
 		s.group.AddEntitySymbol(boltz.NewBoolFuncSymbol(s.group, c18s2SymGx, c18s2Odd))
+		s.item.AddEntityConstraint(c18s6VetoConstraint{}) // refuses one value no valid operation uses (c18_s6.go)
 		out = append(out, s)
 	}
 	return out
